@@ -2,6 +2,15 @@
 from odfdo.datatype import Boolean, DateTime, Duration
 from odfdo.utils.color import hexa_color
 from vlib.hk import done
+import os
+
+D = int(os.environ.get("VERIF_DEPTH", "0"))  # thorough tier: deeper bounds (per process)
+NB = 6 + D
+NBE = 4 + D
+NDP = 3 + D
+NDZ = 8 + D
+NHC = 3 + D
+HMAX = 999 if D == 0 else 99999
 
 
 def bool_rt(b: bool) -> bool:
@@ -14,7 +23,7 @@ def bool_rt(b: bool) -> bool:
 
 def bool_reject(s: str) -> bool:
     """
-    pre: len(s) <= 6
+    pre: len(s) <= NB
     post: _
     """
     # decode accepts exactly the two xsd:boolean literals odfdo writes
@@ -27,7 +36,7 @@ def bool_reject(s: str) -> bool:
 
 def bool_encode_str(s: str) -> bool:
     """
-    pre: len(s) <= 4 and all(c in "tTrue" for c in s)
+    pre: len(s) <= NBE and all(c in "tTrue" for c in s)
     post: _
     """
     # encode of a str: only (case-insensitively) 'true'/'false' are accepted, and map to the lexical form
@@ -45,7 +54,7 @@ def pad2(n):
 
 def dur_decode_rt(h: int, m: int, s: int, neg: bool) -> bool:
     """
-    pre: 0 <= h <= 999 and 0 <= m < 60 and 0 <= s < 60
+    pre: 0 <= h <= HMAX and 0 <= m < 60 and 0 <= s < 60
     post: _
     """
     # the form Duration.encode writes: [-]PThhHmmMssS
@@ -57,7 +66,7 @@ def dur_decode_rt(h: int, m: int, s: int, neg: bool) -> bool:
 
 def dur_decode_days(d: int, h: int, m: int, s: int, neg: bool) -> bool:
     """
-    pre: 0 <= d <= 999 and 0 <= h < 24 and 0 <= m < 60 and 0 <= s < 60
+    pre: 0 <= d <= HMAX and 0 <= h < 24 and 0 <= m < 60 and 0 <= s < 60
     post: _
     """
     # the form other producers write: [-]PnDTnHnMnS
@@ -69,7 +78,7 @@ def dur_decode_days(d: int, h: int, m: int, s: int, neg: bool) -> bool:
 
 def dur_reject_prefix(s: str) -> bool:
     """
-    pre: len(s) <= 3 and all(c in "-PT1HMSDx" for c in s)
+    pre: len(s) <= NDP and all(c in "-PT1HMSDx" for c in s)
     post: _
     """
     # anything that does not start with P / -P is rejected
@@ -92,7 +101,7 @@ class FakeDT:
 
 def datetime_z(text: str) -> bool:
     """
-    pre: len(text) <= 8
+    pre: len(text) <= NDZ
     post: _
     """
     # DateTime.encode only canonicalises a trailing +00:00 to Z and changes nothing else
@@ -104,7 +113,7 @@ def datetime_z(text: str) -> bool:
 
 def hexa_color_str(s: str) -> bool:
     """
-    pre: len(s) <= 3
+    pre: len(s) <= NHC
     pre: all(c in " #0aF" for c in s)
     post: _
     """
